@@ -38,6 +38,7 @@ from __future__ import annotations
 import hashlib
 import json
 import logging
+import math
 import re
 import threading
 import time
@@ -124,6 +125,29 @@ class TokenIdentity:
 #: is unknown, and a caller that negative-caches the second must not cache the
 #: first.
 TokenResolver = Callable[[str], "TokenIdentity | None"]
+
+
+def _usable_ttl(value: object) -> bool:
+    """Report whether *value* may be sent to a caller as ``ttl_seconds``.
+
+    The wire contract (docs/WIRE_PROTOCOL.md section 16) requires a finite,
+    positive number. The value comes from deployment code -- the resolver --
+    so it is checked rather than trusted: ``NaN`` and ``Infinity`` are not
+    even JSON (``json.dumps`` emits them bare), and zero, a negative number,
+    a string or ``None`` leave a caching caller with no usable window.
+
+    Args:
+        value: The resolver's ``TokenIdentity.ttl_seconds``.
+
+    Returns:
+        ``True`` for a finite number greater than zero (``bool`` excluded).
+
+    """
+    if isinstance(value, bool) or not isinstance(value, int | float):
+        return False
+    if isinstance(value, float) and not math.isfinite(value):
+        return False
+    return value > 0
 
 
 class _RateLimiter:
@@ -305,6 +329,25 @@ class _TokenIntrospectionResource:
             )
             self._refuse(resp, HTTPStatus.NOT_FOUND, "unresolved")
             return
+
+        if not _usable_ttl(identity.ttl_seconds):
+            # A resolver bug, not a property of the credential: answering 200
+            # would hand the caller a cache window it cannot use (or a body
+            # that is not JSON at all), answering 404 would be a definitive
+            # "did not resolve" for a credential that did. 5xx is the transient
+            # class, so the caller retries and caches nothing.
+            _logger.error(
+                "introspection: resolver returned an unusable ttl_seconds (%s)",
+                type(identity.ttl_seconds).__name__,
+                extra={
+                    "principal": caller,
+                    "token_digest": digest,
+                    "ttl_seconds": repr(identity.ttl_seconds),
+                },
+            )
+            raise falcon.HTTPInternalServerError(
+                description="token resolver returned an unusable ttl_seconds",
+            )
 
         _logger.info(
             "introspection: resolved",
